@@ -14,6 +14,7 @@ import ALV.Lemmas.C02Top
 import ALV.Lemmas.C02Stop
 import ALV.Lemmas.C02Chain
 import ALV.Lemmas.C02Round
+import ALV.Lemmas.C02Two
 import ALV.Common.Audit
 
 namespace ALV.Props.C02
@@ -566,6 +567,66 @@ theorem aux_lag1 (order : Nat) (steps : List Rat) (xs : List Unit) (k : Nat)
     (padS [()] [] : Stage Unit Unit Unit).need xs k = some (auxNeedLag1 k) :=
   ⟨hasNeed_rsStepS order steps k hs, hasNeed_padS [()] [] xs k hx⟩
 
+/-! ## 10. Two counted sources behind one object of the C level, one of which ENDS
+
+Stream binary operators on two streams, `imap`, `izip` are `map` / `zip` objects; `append`, `chain`,
+`Stream(a, b)` are `itertools.chain`; `izip_longest` is `zip_longest`.  `twoProbe step K (twoStart na nb)`
+lists for `K` requests (failed ones included) whether an output came and both pull counters. -/
+
+/-- **C02.10a** lock-step `map` / `zip` over sources of `na` and `nb` items, asked `K` times: request
+`k` delivers iff both sources have a `k`-th item; the FIRST source has been read `min k na` times —
+when the partner ends first that is one item more than the partner (the item is lost), and one more
+at every further request, because the C object does not remember that it has ended; the second source
+is read only when the first delivered.  Neither source is ever read more than `k` times. -/
+theorem mapzip_probe (na nb K k : Nat) (hk : k < K) :
+    (twoProbe mapzipDemand K (twoStart na nb))[k]? = some (needMapzip na nb (k + 1)) ∧
+    (needMapzip na nb (k + 1)).2.1 ≤ k + 1 ∧ (needMapzip na nb (k + 1)).2.2 ≤ k + 1 := by
+  refine ⟨?_, ?_, ?_⟩
+  · rw [twoProbe_mapzip_get K _ k hk]
+    simp only [twoStart, needMapzip, Nat.zero_add]
+    congr
+  · show min (k + 1) na ≤ k + 1; omega
+  · show min (k + 1) (min na nb) ≤ k + 1; omega
+
+/-- **C02.10b** the partner ends first (`nb < na`): the request that fails has read `nb + 1` items of
+the first source and `nb` of the partner; `j` requests later it is `min (nb + 1 + j) na`. -/
+theorem mapzip_partner_ends_first (na nb j : Nat) (h : nb < na) :
+    needMapzip na nb (nb + 1 + j) = (false, min (nb + 1 + j) na, nb) ∧
+    needMapzip na nb (nb + 1) = (false, nb + 1, nb) := by
+  unfold needMapzip
+  refine ⟨Prod.ext ?_ (Prod.ext ?_ ?_), Prod.ext ?_ (Prod.ext ?_ ?_)⟩ <;> simp <;> omega
+
+/-- **C02.10c** the first source ends first (`na ≤ nb`): the partner is never read further than the
+first source delivered, however often the stage is asked. -/
+theorem mapzip_first_ends_first (na nb k : Nat) (h : na ≤ nb) (hk : na ≤ k) :
+    (needMapzip na nb k).2 = (na, na) := by
+  unfold needMapzip
+  refine Prod.ext ?_ ?_ <;> simp <;> omega
+
+/-- **C02.10d** `chain(a, b)` / `Stream(a).append(b)` / `Stream(a, b)`: request `k` delivers iff
+`k ≤ na + nb`; the tail is not touched while the head lasts (`k ≤ na`: 0 reads — the rule `never` of
+the auxiliary-source table), then read once per output; the head is never asked for more than it has. -/
+theorem chain2_probe (na nb K k : Nat) (hk : k < K) :
+    (twoProbe chainDemand K (twoStart na nb))[k]? = some (needChain2 na nb (k + 1)) ∧
+    (k + 1 ≤ na → (needChain2 na nb (k + 1)).2.2 = 0) ∧
+    (needChain2 na nb (k + 1)).2.1 + (needChain2 na nb (k + 1)).2.2 ≤ k + 1 := by
+  refine ⟨?_, ?_, ?_⟩
+  · rw [twoProbe_chain_get K _ k hk]
+    simp only [twoStart, needChain2, Nat.zero_add]
+    congr
+  · intro h; show min (k + 1 - na) nb = 0; omega
+  · show min (k + 1) na + min (k + 1 - na) nb ≤ k + 1; omega
+
+/-- **C02.10e** `izip_longest(a, b)`: each source is read once per output while it lasts. -/
+theorem longest_probe (na nb K k : Nat) (hk : k < K) :
+    (twoProbe longestDemand K (twoStart na nb))[k]? = some (needLongest na nb (k + 1)) := by
+  rw [twoProbe_longest_get K _ k hk]
+  simp only [twoStart, needLongest, Nat.zero_add]
+  congr
+
+/-- construction reads nothing from either source -/
+theorem two_construction (na nb : Nat) : (twoStart na nb).ra = 0 ∧ (twoStart na nb).rb = 0 := ⟨rfl, rfl⟩
+
 /-! ## non-vacuity: hypotheses satisfiable on non-trivial inputs -/
 
 example : (skipS 2 ▷ mapS (· + 1)).need [10, 20, 30, 40, 50] 2 = some 4 := by decide
@@ -660,6 +721,15 @@ example : rintPos (5 / 2) = 3 ∧ rintPos (7 / 3) = 2 ∧ durLen (.float (5 / 2)
     (takeCount (.frac (-1 / 2))).toOption = some (some 0) := by
   decide +kernel
 example : auxNeedLag1 4 = 3 ∧ (rsStepS 1).need [1/2, 1/2, 2] 4 = some 3 := by decide +kernel
+/-- 10a/10b: the partner (2 items) ends first — the first source is read a third, fourth, fifth time -/
+example : twoProbe mapzipDemand 6 (twoStart 5 2) =
+    [(true, 1, 1), (true, 2, 2), (false, 3, 2), (false, 4, 2), (false, 5, 2), (false, 5, 2)] ∧
+    twoProbe mapzipDemand 4 (twoStart 2 5) = [(true, 1, 1), (true, 2, 2), (false, 2, 2), (false, 2, 2)] := by
+  decide
+example : twoProbe chainDemand 5 (twoStart 2 5) =
+    [(true, 1, 0), (true, 2, 0), (true, 2, 1), (true, 2, 2), (true, 2, 3)] ∧
+    twoProbe longestDemand 4 (twoStart 1 3) = [(true, 1, 1), (true, 1, 2), (true, 1, 3), (false, 1, 3)] := by
+  decide
 
 end ALV.Props.C02
 
